@@ -146,6 +146,14 @@ impl TryFrom<&AST> for GenericClass {
                 if !arg_errs.is_empty() {
                     return Err(arg_errs.into_iter().flatten().collect());
                 }
+                let mut has_default = false;
+                for arg in &class_args {
+                    if has_default && !arg.has_default && !arg.vararg {
+                        let msg = "Cannot have argument with default followed by argument with no default.";
+                        return Err(vec![TypeErr::new(arg.pos, msg)]);
+                    }
+                    has_default = has_default || arg.has_default;
+                }
                 let mut class_args = if class_args.is_empty() {
                     class_args
                 } else {
